@@ -33,9 +33,9 @@ PROP = dict(
          "items; composite: >= 2 atoms); kw - at least one non-zero value with a non-identity dimension was compared against the "
          "reference; model - accepted in METRIC and more than 50 physical values written. Distinct = hash of the case content.",
     stages=[
-        dict(id="tables", harness="c02_units", flavour="plain", cases={Q: 30000, T: 600000}, timeout={Q: 600, T: 3600}, args=["part=tables"]),
-        dict(id="kw", harness="c02_units", flavour="plain", cases={Q: 60000, T: 1200000}, timeout={Q: 600, T: 5400}, args=["part=kw"]),
-        dict(id="model", harness="c02_units", flavour="plain", cases={Q: 2400, T: 40000}, timeout={Q: 900, T: 7200}, args=["part=model"]),
+        dict(id="tables", harness="c02_units", flavour="plain", cases={Q: 30000, T: 1800000}, timeout={Q: 600, T: 3600}, args=["part=tables"]),
+        dict(id="kw", harness="c02_units", flavour="plain", cases={Q: 60000, T: 3600000}, timeout={Q: 600, T: 5400}, args=["part=kw"]),
+        dict(id="model", harness="c02_units", flavour="plain", cases={Q: 2400, T: 120000}, timeout={Q: 900, T: 7200}, args=["part=model"]),
     ],
     min_nontrivial={Q: 40000, T: 597402},
     coverage_floor=[("tables", "enumeration_complete", {Q: 1, T: 1}),
